@@ -161,7 +161,12 @@ def with_refs(doc, rng):
     tgt = lambda: rng.choice(["Node", "Ping", "Pong", "Leaf", "Tagged"])
     sch = lambda: rng.choice([lambda: {"$ref": "#/definitions/" + tgt()},
                               lambda: {"type": "array", "items": {"$ref": "#/definitions/" + tgt()}},
-                              lambda: {"allOf": [{"$ref": "#/definitions/" + tgt()}, {"type": "object"}]}])()
+                              lambda: {"allOf": [{"$ref": "#/definitions/" + tgt()}, {"type": "object"}]},
+                              # a schema may also be named by a longer pointer: the schema OF a shared response or parameter,
+                              # a property of a definition
+                              lambda: {"$ref": rng.choice(["#/responses/Rec/schema", "#/parameters/BodyRec/schema",
+                                                           "#/definitions/Tagged/properties/a", "#/definitions/Node/properties/v"])},
+                              lambda: {"type": "array", "items": {"$ref": rng.choice(["#/responses/Rec/schema", "#/parameters/BodyRec/schema"])}}])()
     pars = d.setdefault("parameters", {})
     pars["BodyRec"] = {"in": "body", "name": "body", "schema": {"$ref": "#/definitions/" + rng.choice(["Node", "Ping"])}}
     pars["BodyAny"] = {"in": "body", "name": "payload", "schema": sch()}
